@@ -96,7 +96,7 @@ class Model(object):
 
     def splice(self, lv, fn, pos, remove, insert):
         data = self.levels[lv]["bins"][fn]
-        if data is None:
+        if data is None or isinstance(data, str):
             return False
         p = self.cur(lv, fn, pos)
         if p > len(data):
@@ -122,7 +122,13 @@ class Model(object):
             with open(os.path.join(d, "Cell_H"), "w") as f:
                 f.write("\n".join(r[1] for r in lv["cellh"] if r[1] is not None))
             for fn, data in lv["bins"].items():
-                if data is not None:
+                if isinstance(data, str):
+                    # the name is there but it is no file: a dangling symbolic link (purged scratch area) / a directory
+                    if data == "dangling":
+                        os.symlink(os.path.join(d, "purged_" + fn), os.path.join(d, fn))
+                    else:
+                        os.makedirs(os.path.join(d, fn))
+                elif data is not None:
                     with open(os.path.join(d, fn), "wb") as f:
                         f.write(bytes(data))
 
@@ -155,17 +161,23 @@ def apply(m, mut):
             return False
         m.levels[lv]["bins"][fn] = None
         return True
+    if op == "unfile":
+        _, lv, fn, what = mut
+        if not isinstance(m.levels[lv]["bins"][fn], (bytes, bytearray)):
+            return False
+        m.levels[lv]["bins"][fn] = what
+        return True
     if op == "truncate":
         _, lv, fn, n = mut
         data = m.levels[lv]["bins"][fn]
-        if data is None or n > len(data) or n <= 0:
+        if data is None or isinstance(data, str) or n > len(data) or n <= 0:
             return False
         del data[len(data) - n:]
         return True
     if op == "extend":
         _, lv, fn, what = mut
         data = m.levels[lv]["bins"][fn]
-        if data is None:
+        if data is None or isinstance(data, str):
             return False
         if what == "dupfab":
             last = m.levels[lv]["fabs"][fn][-1]
@@ -216,7 +228,7 @@ def apply(m, mut):
         _, lv, fn, k, kind = mut
         fab = m.levels[lv]["fabs"][fn][k]
         data = m.levels[lv]["bins"][fn]
-        if data is None:
+        if data is None or isinstance(data, str):
             return False
         old = bytes(data[m.cur(lv, fn, fab["off"]):m.cur(lv, fn, fab["hend"])]).decode("latin1")
         if kind == "extra_blanks":
@@ -276,7 +288,7 @@ def apply(m, mut):
         L = m.levels[lv]
         fn = L["files"][b]
         fab = [f for f in L["fabs"][fn] if f["box"] == b][0]
-        size = len(L["bins"][fn]) if L["bins"][fn] is not None else fab["end"]
+        size = len(L["bins"][fn]) if isinstance(L["bins"][fn], (bytes, bytearray)) else fab["end"]
         if kind == "offset":
             if arg == "+1":
                 t[2] = str(fab["off"] + 1)
@@ -358,7 +370,7 @@ def apply(m, mut):
 def site(mut):
     """Site identifier: pairs are formed from mutations at distinct sites."""
     op = mut[0]
-    if op in ("delete_file", "truncate", "extend"):
+    if op in ("delete_file", "truncate", "extend", "unfile"):
         return ("file", mut[1], mut[2])
     if op in ("insert8", "remove8"):
         return ("fabdata", mut[1], mut[2], mut[3], mut[4])
@@ -375,7 +387,7 @@ def site(mut):
 
 def file_of(mut, model):
     op = mut[0]
-    if op in ("delete_file", "truncate", "extend", "insert8", "remove8", "fabhdr", "fabhdr_text"):
+    if op in ("delete_file", "unfile", "truncate", "extend", "insert8", "remove8", "fabhdr", "fabhdr_text"):
         return (mut[1], mut[2])
     if op in ("index", "fod"):
         return (mut[1], model.levels[mut[1]]["files"][mut[2]])
@@ -391,6 +403,8 @@ def singles(model, coords=False, textual=False):
             tab = L["fabs"][fn]
             last = tab[-1]
             out.append(["delete_file", lv, fn])
+            out.append(["unfile", lv, fn, "dangling"])
+            out.append(["unfile", lv, fn, "directory"])
             for n in sorted(set([1, 8, last["ncell"] * 8, last["ncell"] * last["nc"] * 8, len(L["bins"][fn])])):
                 out.append(["truncate", lv, fn, n])
             for what in (1, 8, "dupfab"):
